@@ -19,3 +19,10 @@ UNITS += [
          note="loop-free code; complete for the stated shapes of the pool/arena (pool empty or one record at its head; <= 64 bytes left in the current arena block)",
          trusted=["Arena::_alloc_oneshot replaced by an ASSUMED contract (NULL or a fresh record); its own contract is unit c18.arena.alloc_oneshot"]),
 ]
+
+UNITS += [
+    Unit(name="c03.iter.resolve_and_next", props=["C03"], tu=CH, roots=["asmjit::ResolveFixupIterator::resolve_and_next"], target="ResolveFixupIterator_resolve_and_next",
+         contracts="contracts/c03_iter.h", unwind=4, note="loop-free: complete"),
+    Unit(name="c03.iter.next", props=["C03"], tu=CH, roots=["asmjit::ResolveFixupIterator::next"], target="ResolveFixupIterator_next",
+         contracts="contracts/c03_iter.h", unwind=4, note="loop-free: complete"),
+]
